@@ -339,12 +339,17 @@ type Case struct {
 	Ops      []Op     `json:"ops,omitempty"`
 	Free     *Free    `json:"free,omitempty"`
 	Reconf   *Reconf  `json:"reconf,omitempty"`
+	Storm    *Storm   `json:"storm,omitempty"`
 	// FailedCb: install RequestQueue.Failed (the sender itself never does; a queue without the
 	// callback must refuse on overflow all the same)
 	FailedCb bool `json:"failed_cb,omitempty"`
 	// Fault: which hand-overs the client answers with an error (it records them all the same):
 	//   ""  none | "first" | "all" | "every:<k>" (k-th, 2k-th, …) | "random:<pct>:<salt>"
 	Fault string `json:"fault,omitempty"`
+	// Ctor: how the sender is constructed — "" the hook NewForVerif (queue mode, explicit settings);
+	// "noqueue" the production constructor GetInstance(WithTcpClient(c)) without WithUseQueue: no queue,
+	// no goroutine, defaults in force (only append / direct / config operations make sense)
+	Ctor string `json:"ctor,omitempty"`
 }
 
 // faultAt: does the client report an error for its n-th hand-over (n from 0)?
@@ -422,6 +427,9 @@ func (c *Case) canon() string {
 	if c.Fault != "" {
 		sb.WriteString("fault=" + c.Fault + " ")
 	}
+	if c.Ctor != "" {
+		sb.WriteString("ctor=" + c.Ctor + " ")
+	}
 	for _, o := range c.Ops {
 		switch o.K {
 		case "add", "append":
@@ -437,6 +445,9 @@ func (c *Case) canon() string {
 		default:
 			sb.WriteString(o.K[:2] + ";")
 		}
+	}
+	if c.Storm != nil {
+		fmt.Fprintf(&sb, "stopstorm pre=%d late=%d/%d", len(c.Storm.Pre), len(c.Storm.Late), len(c.stormSpecs())-len(c.Storm.Pre))
 	}
 	if c.Reconf != nil {
 		x := c.Reconf.New
@@ -461,6 +472,7 @@ func (c *Case) allSpecs() []RecSpec {
 		out = append(out, c.Reconf.A...)
 		out = append(out, c.Reconf.B...)
 	}
+	out = append(out, c.stormSpecs()...)
 	for _, o := range c.Ops {
 		if o.R != nil {
 			out = append(out, *o.R)
